@@ -72,4 +72,18 @@ CLAIMS = {
                      "extraction by conditional constant propagation, dominator checks, call-graph reachability, "
                      "compile_fail witnesses",
     },
+    "C19": {
+        "text": "Claimed (structural clauses): (1) the complete ErrorCode -> Category map of Error::classify and the "
+                "Category -> io::ErrorKind map of From<Error> for io::Error, extracted by constant propagation of every "
+                "variant, equal the documented ones (Eof* -> Eof -> UnexpectedEof, Io -> Io -> the original error, all "
+                "others Syntax -> InvalidData), likewise for serde_lexpr::Error (+ Data -> InvalidData, no panic); "
+                "syntax/EOF errors are only built by Error::syntax with Some(location) and Io errors only by Error::io; "
+                "(2) at every read site of the lexer (and every use of parse_whitespace / next_value / next_datum "
+                "returning Ok(None)), the end-of-input outcome can raise an Eof* code before the next read - a site whose "
+                "only answer to end of input is a syntax code is reported. The numeric bounds of line/column and whether a "
+                "data-dependent branch at end of input picks the right code are not decided.",
+        "note": _TB + "std::io::Error::new keeps the kind it is given.",
+        "technique": "variant-map extraction by conditional constant propagation; end-of-input injection at each read "
+                     "site with abstract path enumeration; constructor-site audit",
+    },
 }
